@@ -43,6 +43,7 @@ Record nstate := mkNS {
   v_leader : N; v_leaderId : N;   (* advertised leader address / id, 0 = none *)
   v_transfer : bool;              (* candidateFromLeadershipTransfer *)
   v_fsm : list N;                 (* user FSM content *)
+  v_fsmLast : N * N;              (* runFSM's (lastIndex, lastTerm): last entry or snapshot handed to the FSM goroutine since it started *)
 }.
 
 Definition Follower : N := 0.
@@ -54,77 +55,83 @@ Definition set_durable_term (s : nstate) (t : N) : nstate :=
   mkNS t (d_vterm s) (d_vcand s) (d_log s) (d_staged s) (d_pcommit s) (d_snaps s)
        (v_role s) (v_term s) (v_commit s) (v_applied s) (v_lastLogIdx s) (v_lastLogTerm s)
        (v_lastSnapIdx s) (v_lastSnapTerm s) (v_latest s) (v_latestIdx s) (v_committed s)
-       (v_committedIdx s) (v_leader s) (v_leaderId s) (v_transfer s) (v_fsm s).
+       (v_committedIdx s) (v_leader s) (v_leaderId s) (v_transfer s) (v_fsm s) (v_fsmLast s).
 Definition set_vterm (s : nstate) (t : N) : nstate :=
   mkNS (d_term s) t (d_vcand s) (d_log s) (d_staged s) (d_pcommit s) (d_snaps s)
        (v_role s) (v_term s) (v_commit s) (v_applied s) (v_lastLogIdx s) (v_lastLogTerm s)
        (v_lastSnapIdx s) (v_lastSnapTerm s) (v_latest s) (v_latestIdx s) (v_committed s)
-       (v_committedIdx s) (v_leader s) (v_leaderId s) (v_transfer s) (v_fsm s).
+       (v_committedIdx s) (v_leader s) (v_leaderId s) (v_transfer s) (v_fsm s) (v_fsmLast s).
 Definition set_vcand (s : nstate) (c : option N) : nstate :=
   mkNS (d_term s) (d_vterm s) c (d_log s) (d_staged s) (d_pcommit s) (d_snaps s)
        (v_role s) (v_term s) (v_commit s) (v_applied s) (v_lastLogIdx s) (v_lastLogTerm s)
        (v_lastSnapIdx s) (v_lastSnapTerm s) (v_latest s) (v_latestIdx s) (v_committed s)
-       (v_committedIdx s) (v_leader s) (v_leaderId s) (v_transfer s) (v_fsm s).
+       (v_committedIdx s) (v_leader s) (v_leaderId s) (v_transfer s) (v_fsm s) (v_fsmLast s).
 Definition set_log (s : nstate) (l : gmap N entry) (staged pcommit : N) : nstate :=
   mkNS (d_term s) (d_vterm s) (d_vcand s) l staged pcommit (d_snaps s)
        (v_role s) (v_term s) (v_commit s) (v_applied s) (v_lastLogIdx s) (v_lastLogTerm s)
        (v_lastSnapIdx s) (v_lastSnapTerm s) (v_latest s) (v_latestIdx s) (v_committed s)
-       (v_committedIdx s) (v_leader s) (v_leaderId s) (v_transfer s) (v_fsm s).
+       (v_committedIdx s) (v_leader s) (v_leaderId s) (v_transfer s) (v_fsm s) (v_fsmLast s).
 Definition set_snaps (s : nstate) (l : list snapshot) : nstate :=
   mkNS (d_term s) (d_vterm s) (d_vcand s) (d_log s) (d_staged s) (d_pcommit s) l
        (v_role s) (v_term s) (v_commit s) (v_applied s) (v_lastLogIdx s) (v_lastLogTerm s)
        (v_lastSnapIdx s) (v_lastSnapTerm s) (v_latest s) (v_latestIdx s) (v_committed s)
-       (v_committedIdx s) (v_leader s) (v_leaderId s) (v_transfer s) (v_fsm s).
+       (v_committedIdx s) (v_leader s) (v_leaderId s) (v_transfer s) (v_fsm s) (v_fsmLast s).
 Definition set_role (s : nstate) (r : N) : nstate :=
   mkNS (d_term s) (d_vterm s) (d_vcand s) (d_log s) (d_staged s) (d_pcommit s) (d_snaps s)
        r (v_term s) (v_commit s) (v_applied s) (v_lastLogIdx s) (v_lastLogTerm s)
        (v_lastSnapIdx s) (v_lastSnapTerm s) (v_latest s) (v_latestIdx s) (v_committed s)
-       (v_committedIdx s) (v_leader s) (v_leaderId s) (v_transfer s) (v_fsm s).
+       (v_committedIdx s) (v_leader s) (v_leaderId s) (v_transfer s) (v_fsm s) (v_fsmLast s).
 Definition set_vol_term (s : nstate) (t : N) : nstate :=
   mkNS (d_term s) (d_vterm s) (d_vcand s) (d_log s) (d_staged s) (d_pcommit s) (d_snaps s)
        (v_role s) t (v_commit s) (v_applied s) (v_lastLogIdx s) (v_lastLogTerm s)
        (v_lastSnapIdx s) (v_lastSnapTerm s) (v_latest s) (v_latestIdx s) (v_committed s)
-       (v_committedIdx s) (v_leader s) (v_leaderId s) (v_transfer s) (v_fsm s).
+       (v_committedIdx s) (v_leader s) (v_leaderId s) (v_transfer s) (v_fsm s) (v_fsmLast s).
 Definition set_commit (s : nstate) (c : N) : nstate :=
   mkNS (d_term s) (d_vterm s) (d_vcand s) (d_log s) (d_staged s) (d_pcommit s) (d_snaps s)
        (v_role s) (v_term s) c (v_applied s) (v_lastLogIdx s) (v_lastLogTerm s)
        (v_lastSnapIdx s) (v_lastSnapTerm s) (v_latest s) (v_latestIdx s) (v_committed s)
-       (v_committedIdx s) (v_leader s) (v_leaderId s) (v_transfer s) (v_fsm s).
+       (v_committedIdx s) (v_leader s) (v_leaderId s) (v_transfer s) (v_fsm s) (v_fsmLast s).
 Definition set_applied (s : nstate) (a : N) (fsm : list N) : nstate :=
   mkNS (d_term s) (d_vterm s) (d_vcand s) (d_log s) (d_staged s) (d_pcommit s) (d_snaps s)
        (v_role s) (v_term s) (v_commit s) a (v_lastLogIdx s) (v_lastLogTerm s)
        (v_lastSnapIdx s) (v_lastSnapTerm s) (v_latest s) (v_latestIdx s) (v_committed s)
-       (v_committedIdx s) (v_leader s) (v_leaderId s) (v_transfer s) fsm.
+       (v_committedIdx s) (v_leader s) (v_leaderId s) (v_transfer s) fsm (v_fsmLast s).
 Definition set_lastlog (s : nstate) (i t : N) : nstate :=
   mkNS (d_term s) (d_vterm s) (d_vcand s) (d_log s) (d_staged s) (d_pcommit s) (d_snaps s)
        (v_role s) (v_term s) (v_commit s) (v_applied s) i t
        (v_lastSnapIdx s) (v_lastSnapTerm s) (v_latest s) (v_latestIdx s) (v_committed s)
-       (v_committedIdx s) (v_leader s) (v_leaderId s) (v_transfer s) (v_fsm s).
+       (v_committedIdx s) (v_leader s) (v_leaderId s) (v_transfer s) (v_fsm s) (v_fsmLast s).
 Definition set_lastsnap (s : nstate) (i t : N) : nstate :=
   mkNS (d_term s) (d_vterm s) (d_vcand s) (d_log s) (d_staged s) (d_pcommit s) (d_snaps s)
        (v_role s) (v_term s) (v_commit s) (v_applied s) (v_lastLogIdx s) (v_lastLogTerm s)
        i t (v_latest s) (v_latestIdx s) (v_committed s)
-       (v_committedIdx s) (v_leader s) (v_leaderId s) (v_transfer s) (v_fsm s).
+       (v_committedIdx s) (v_leader s) (v_leaderId s) (v_transfer s) (v_fsm s) (v_fsmLast s).
 Definition set_latest (s : nstate) (c : config) (i : N) : nstate :=
   mkNS (d_term s) (d_vterm s) (d_vcand s) (d_log s) (d_staged s) (d_pcommit s) (d_snaps s)
        (v_role s) (v_term s) (v_commit s) (v_applied s) (v_lastLogIdx s) (v_lastLogTerm s)
        (v_lastSnapIdx s) (v_lastSnapTerm s) c i (v_committed s)
-       (v_committedIdx s) (v_leader s) (v_leaderId s) (v_transfer s) (v_fsm s).
+       (v_committedIdx s) (v_leader s) (v_leaderId s) (v_transfer s) (v_fsm s) (v_fsmLast s).
 Definition set_committed (s : nstate) (c : config) (i : N) : nstate :=
   mkNS (d_term s) (d_vterm s) (d_vcand s) (d_log s) (d_staged s) (d_pcommit s) (d_snaps s)
        (v_role s) (v_term s) (v_commit s) (v_applied s) (v_lastLogIdx s) (v_lastLogTerm s)
        (v_lastSnapIdx s) (v_lastSnapTerm s) (v_latest s) (v_latestIdx s) c
-       i (v_leader s) (v_leaderId s) (v_transfer s) (v_fsm s).
+       i (v_leader s) (v_leaderId s) (v_transfer s) (v_fsm s) (v_fsmLast s).
 Definition set_leader (s : nstate) (a i : N) : nstate :=
   mkNS (d_term s) (d_vterm s) (d_vcand s) (d_log s) (d_staged s) (d_pcommit s) (d_snaps s)
        (v_role s) (v_term s) (v_commit s) (v_applied s) (v_lastLogIdx s) (v_lastLogTerm s)
        (v_lastSnapIdx s) (v_lastSnapTerm s) (v_latest s) (v_latestIdx s) (v_committed s)
-       (v_committedIdx s) a i (v_transfer s) (v_fsm s).
+       (v_committedIdx s) a i (v_transfer s) (v_fsm s) (v_fsmLast s).
 Definition set_transfer (s : nstate) (b : bool) : nstate :=
   mkNS (d_term s) (d_vterm s) (d_vcand s) (d_log s) (d_staged s) (d_pcommit s) (d_snaps s)
        (v_role s) (v_term s) (v_commit s) (v_applied s) (v_lastLogIdx s) (v_lastLogTerm s)
        (v_lastSnapIdx s) (v_lastSnapTerm s) (v_latest s) (v_latestIdx s) (v_committed s)
-       (v_committedIdx s) (v_leader s) (v_leaderId s) b (v_fsm s).
+       (v_committedIdx s) (v_leader s) (v_leaderId s) b (v_fsm s) (v_fsmLast s).
+
+Definition set_fsmlast (s : nstate) (x : N * N) : nstate :=
+  mkNS (d_term s) (d_vterm s) (d_vcand s) (d_log s) (d_staged s) (d_pcommit s) (d_snaps s)
+       (v_role s) (v_term s) (v_commit s) (v_applied s) (v_lastLogIdx s) (v_lastLogTerm s)
+       (v_lastSnapIdx s) (v_lastSnapTerm s) (v_latest s) (v_latestIdx s) (v_committed s)
+       (v_committedIdx s) (v_leader s) (v_leaderId s) (v_transfer s) (v_fsm s) x.
 
 (* setState: any state transition clears the advertised leader *)
 Definition set_state (s : nstate) (r : N) : nstate := set_role (set_leader s 0 0) r.
@@ -287,13 +294,17 @@ Fixpoint collect_logs (m : gmap N entry) (idx : N) (n : nat) : option (list entr
   end.
 
 (* processLogs(index, nil): None = panic *)
+Definition last_opt (l : list entry) : option entry :=
+  match l with [] => None | x :: r => Some (last r x) end.
+
 Definition process_logs (s : nstate) (index : N) : option (nstate * list ev) :=
   if index <=? v_applied s then Some (s, [])
   else match collect_logs (d_log s) (v_applied s) (N.to_nat (index - v_applied s)) with
        | None => None
        | Some es =>
          let handed := filter (fun e => prepare_kind (e_ty e) =? 1) es in
-         Some (set_applied s index (fold_left fsm_apply handed (v_fsm s)),
+         Some (set_fsmlast (set_applied s index (fold_left fsm_apply handed (v_fsm s)))
+                           (match last_opt handed with Some e => (e_idx e, e_term e) | None => v_fsmLast s end),
                flat_map fsm_events handed)
        end.
 
@@ -452,7 +463,7 @@ Definition is_body (P : params) (s2 : nstate) (rt : N) (tr1 : list ev) (fs1 : li
           let sn := mkSnap (iq_lastIdx q) (iq_lastTerm q) (iq_cfg q) (iq_cfgIdx q) (iq_data q) true in
           let s3 := set_snaps s2 (d_snaps s2 ++ [sn]) in
           (* FSM restore, then volatile bookkeeping *)
-          let s4 := set_applied s3 (iq_lastIdx q) (iq_data q) in
+          let s4 := set_fsmlast (set_applied s3 (iq_lastIdx q) (iq_data q)) (iq_lastIdx q, iq_lastTerm q) in
           let s5 := set_lastsnap s4 (iq_lastIdx q) (iq_lastTerm q) in
           let s6 := set_committed (set_latest s5 (iq_cfg q) (iq_cfgIdx q)) (iq_cfg q) (iq_cfgIdx q) in
           (* after the "fix:" commit in /repo: a monotonic store is wiped and the cached tail reset;
@@ -505,6 +516,30 @@ Definition install_snapshot (P : params) (s : nstate) (fs : list bool) (q : ireq
       is_body P (set_leader s1 (iq_addr q) (iq_id q)) rt tr1 fs1 q
     end.
 
+(* ---------------------------------------------------------------- takeSnapshot (snapshot.go) *)
+(* runFSM's (lastIndex, lastTerm) *)
+Definition fsm_index (s : nstate) : N * N := v_fsmLast s.
+
+(* result: 0 ok, 2 ErrNothingNewToSnapshot, 3 refused (configuration entry not yet applied),
+   4 snapshot store error, 5 compaction failed (the snapshot is durable) *)
+Definition take_snapshot (P : params) (s : nstate) (fs : list bool) : outcome N :=
+  let '(fi, ft) := fsm_index s in
+  if fi =? 0 then Done s 2 [] fs
+  else if fi <? v_committedIdx s then Done s 3 [] fs
+  else
+    let '(fc, fs1) := next_fail fs in
+    if fc then Done s 4 [ESnap fi ft false] fs1
+    else
+      let '(fcl, fs2) := next_fail fs1 in
+      if fcl then Done s 4 [ESnap fi ft false] fs2
+      else
+        let sn := mkSnap fi ft (v_committed s) (v_committedIdx s) (v_fsm s) true in
+        let s1 := set_lastsnap (set_snaps s (d_snaps s ++ [sn])) fi ft in
+        let range := compact (log_first (d_log s1)) fi (v_lastLogIdx s1) (p_trailing P) in
+        let '(s2, trc, fs3) := run_compaction s1 fs2 range in
+        let failed := existsb (fun e => match e with EDelete _ _ false => true | _ => false end) trc in
+        Done s2 (if failed then 5 else 0) (ESnap fi ft true :: trc) fs3.
+
 (* ---------------------------------------------------------------- TimeoutNow *)
 Definition timeout_now (s : nstate) : nstate :=
   set_transfer (set_state (set_leader s 0 0) Candidate) true.
@@ -551,7 +586,7 @@ Inductive recovered :=
 
 Definition fresh_volatile (s : nstate) : nstate :=
   mkNS (d_term s) (d_vterm s) (d_vcand s) (d_log s) (d_staged s) (d_pcommit s) (d_snaps s)
-       Follower 0 0 0 0 0 0 0 [] 0 [] 0 0 0 false [].
+       Follower 0 0 0 0 0 0 0 [] 0 [] 0 0 0 false [] (0, 0).
 
 (* configuration scan from..lastIdx; None = GetLog failed (panic) *)
 Fixpoint scan_configs (P : params) (s : nstate) (from : N) (n : nat) : option nstate :=
